@@ -190,6 +190,43 @@ theorem roundtrip_flat_total (o : Opts) (hr : refuse o = false) (l : Lang) (f : 
   obtain ⟨f', h1, h2⟩ := roundtrip_flat o l f b hwf hflat hne hb
   exact ⟨b, f', hb, h1, h2⟩
 
+/-! ## The round trip for programs without subshells and blocks
+
+  `lin`: every statement is built from simple commands with `&&`, `||`, `|` (any nesting the
+  grammar allows), `!`, `&`, `;`.  Both halves are proved for every option set — including
+  BinaryNextLine, Minify and SingleLine — and every assignment of positions. -/
+
+/-- printer half on programs without subshells and blocks -/
+theorem print_in_Prints_lin (o : Opts) (f : File) (b : Bytes) (hwf : f.wf = true) (hlin : f.stmts.lin = true)
+    (hne : f.stmts ≠ .nil) (hp : printFile o f = .ok b) : Prints f b := by
+  obtain ⟨ps, lt, h1, h2, h3, h4, h5⟩ := L4.print_in_Prints_lin o f b hwf hlin hne hp
+  exact ⟨ps, false, lt, h1, h2, h3, h4, h5⟩
+
+/-- **Round trip, programs of simple commands, pipelines and and-or lists**: whatever the options
+    and the positions, the printed bytes parse again, in every variant, to a tree with the same norm. -/
+theorem roundtrip_lin (o : Opts) (l : Lang) (f : File) (b : Bytes) (hwf : f.wf = true) (hlin : f.stmts.lin = true)
+    (hne : f.stmts ≠ .nil) (hp : printFile o f = .ok b) : ∃ f', parse l b = .ok f' ∧ f'.norm = f.norm :=
+  parse_of_Prints l f b (print_in_Prints_lin o f b hwf hlin hne hp)
+
+/-- … and printing succeeds unless refused. -/
+theorem roundtrip_lin_total (o : Opts) (hr : refuse o = false) (l : Lang) (f : File) (hwf : f.wf = true)
+    (hlin : f.stmts.lin = true) (hne : f.stmts ≠ .nil) :
+    ∃ b f', printFile o f = .ok b ∧ parse l b = .ok f' ∧ f'.norm = f.norm := by
+  obtain ⟨b, hb⟩ := print_total o hr f hwf
+  obtain ⟨f', h1, h2⟩ := roundtrip_lin o l f b hwf hlin hne hb
+  exact ⟨b, f', hb, h1, h2⟩
+
+/-- a well-formed `lin` file: `! a | b && c &` NEWLINE `d` -/
+example : ∃ f : File, f.wf = true ∧ f.stmts.lin = true ∧ f.stmts ≠ .nil :=
+  ⟨⟨.cons (.mk ⟨0, 1, 1⟩ ⟨14, 1, 15⟩ false true
+        (.binary ⟨8, 1, 9⟩ .andStmt
+          (.mk ⟨0, 1, 1⟩ Pos.zero true false
+            (.binary ⟨4, 1, 5⟩ .pipe (.mk ⟨2, 1, 3⟩ Pos.zero false false (.call [w1 1 "a"]))
+              (.mk ⟨6, 1, 7⟩ Pos.zero false false (.call [w1 1 "b"]))))
+          (.mk ⟨11, 1, 12⟩ Pos.zero false false (.call [w1 1 "c"]))))
+      (.cons (.mk ⟨16, 2, 1⟩ Pos.zero false false (.call [w1 2 "d"])) .nil)⟩,
+    by decide +kernel, by decide +kernel, by simp⟩
+
 /-- a flat well-formed file: `! a 'x y' &` NEWLINE NEWLINE `b c` with `c` on a later line -/
 example : ∃ f : File, f.wf = true ∧ f.stmts.flat = true ∧ f.stmts ≠ .nil :=
   ⟨⟨.cons (.mk ⟨0, 1, 1⟩ ⟨10, 1, 11⟩ true true (.call [w1 1 "a", ⟨[.sgl ⟨4, 1, 5⟩ ⟨8, 1, 9⟩ (bytesOfString "x y")]⟩]))
